@@ -4,6 +4,8 @@ CONSTANTS
   EmitOn = TRUE
 INVARIANT TypeOK
 INVARIANT WellFormedInv
+INVARIANT PartitionInv
+INVARIANT ThreadInv
 INVARIANT Emit
 INVARIANT EmitInterface
 CHECK_DEADLOCK FALSE
